@@ -6,6 +6,7 @@ import EnvVerif.Model.Expr
 import EnvVerif.Model.Recipient
 import EnvVerif.Model.Conc
 import EnvVerif.Model.Sha256
+import EnvVerif.Model.Ur
 namespace EnvVerif
 open Env
 
@@ -430,6 +431,7 @@ def evalAssign (facts : List String) (r : Regs) (args : List String) : Option Va
   | ["decode", hx] => do
     let b ← bytesOfHex hx
     pure (.ofRes (decode H b))
+  | ["from_ur", text] => pure (.ofRes (envOfUrString H (Ur.textOfString text)))
   | ["recode", e] => do
     let e ← r.env e
     pure (.ofRes (decode H (encode e)))
@@ -448,6 +450,7 @@ def evalObs (facts : List String) (r : Regs) (args : List String) : Option Strin
   | ["shape", e] => (r.env e).map shape
   | ["digest", e] => (r.env e).map fun e => dhex e.digest
   | ["bytes", e] => (r.env e).map fun e => hexOfBytes (encode e)
+  | ["ur", e] => (r.env e).map fun e => Ur.stringOfText (urStringOf e)
   | ["sdigest", e] => (r.env e).map fun e => dhex (structuralDigest H e)
   | ["count", e] => (r.env e).map fun e => toString (elementsCount e)
   | ["walk", e, mode] => do
